@@ -15,6 +15,9 @@ func (s *Service) VerifFIFOHasNext() bool { return s.fifo.HasNext() }
 // VerifFIFOLen returns the number of items in the FIFO.
 func (s *Service) VerifFIFOLen() int { return s.fifo.Len() }
 
+// VerifWritesToBatcher is the number of event groups writeToBatcher has finished handing to the batcher.
+func (s *Service) VerifWritesToBatcher() uint64 { return s.writesToBatcher.Load() }
+
 // VerifSetCluster completes a CDCCluster that was created before the node's cluster
 // service and client existed (the store must have CDC enabled before it is opened).
 func (c *CDCCluster) VerifSetCluster(clstr *cluster.Service, client *cluster.Client) {
